@@ -15,7 +15,7 @@ LEVEL_TEXT = ("Static structural proof of necessary conditions: (R11.1) every fu
               "absent table entry or conversion result is passed to float(), used arithmetically or dereferenced "
               "without a dominating None test. Which spellings are accepted, numeric values, linearity and prefix "
               "units are NOT decided.")
-LEVEL_EXTRA = 'Added after the seeded evaluation: (R11.3) number-then-unit is accepted only for non-prefix units and unit-then-number only for prefix units (complementary tests of unitPrefix); (R11.4) unit and prefix conversion factors are parsed by the same chain; (R11.5) a prefix name is never case-folded. (R11.6) a number obtained with float()/int() is never tested for truthiness. (R11.7) the unit report is reachable when extra words precede a unit; a caret in a conversion factor is read as exponentiation.'
+LEVEL_EXTRA = 'Added after the seeded evaluation: (R11.3) number-then-unit is accepted only for non-prefix units and unit-then-number only for prefix units (complementary tests of unitPrefix); (R11.4) unit and prefix conversion factors are parsed by the same chain; (R11.5) a prefix name is never case-folded. (R11.6) a number obtained with float()/int() is never tested for truthiness. (R11.7) the unit report is reachable when extra words precede a unit; a caret in a conversion factor is read as exponentiation. (R11.8) plural unit forms are derived only on the not-a-unitSymbol branch.'
 
 
 def _is_prefix_test(prog, x):
@@ -307,3 +307,29 @@ def run(ctx):
 
     n = check_nullable(ctx, "R11.2", scope, pred, "named nullable results and one-argument dict.get")
     ctx.floor("R11.2", "nullable sources in the conversion closure", n, 4)
+
+    # ---------------- R11.8: only unit NAMES have plural forms; a unit symbol is accepted exactly as declared
+    ctx.rule("R11.8", "plural unit forms are derived only on the branch where the unit is not a unitSymbol")
+    fe118 = ue.methods.get("finalize_entry")
+    if fe118 is None:
+        raise AnalysisError("anchor UnitEntry.finalize_entry vanished")
+    ctx.saw(fe118)
+    from sa.dom import view as _view118, mentions as _m118
+    scope118 = [fe118] + sorted((h for h in cg.reachable([fe118], STRONG_KINDS) if h.cls is ue and h is not fe118), key=lambda h: h.qualname)
+    plurals = []
+    for h in scope118:
+        vh = _view118(ctx, h)
+        plurals += [(h, vh, n_, c) for (n_, c) in vh.calls(lambda c: call_name(c) in ("plural", "pluralize"))]
+    ctx.floor("R11.8", "plural derivations in UnitEntry.finalize_entry", len(plurals), 1)
+    for h, vh, n_, c in plurals:
+        ctx.saw(h)
+        ok118 = False
+        for cnd in vh.conds(lambda t: _m118(t, "UnitSymbol")):
+            neg = norm(cnd.ast).startswith("not ")
+            for lab in (True, False):
+                if vh.edge_guards(cnd, lab, n_) and (lab is True) == neg:
+                    ok118 = True
+        ctx.check(ok118, "R11.8", h.qualname, c, loc(h, c),
+                  "a plural form is derived without being on the not-a-unitSymbol branch: pluralised symbols (`ss`, `ms` for metre, "
+                  "`gs`) become accepted units of their class, so a wrong unit is no longer reported (and `ms` becomes ambiguous)",
+                  desc="plural only for unit names")
